@@ -351,11 +351,20 @@ def gen_cases(run, per_class):
             if r.random() < 0.3 and "custom_properties" not in o:
                 cases.extend(nested_custom_cases(gen, cid, o, once["opts"][:4]))
             if r.random() < 0.5:
-                how = r.choice(["deepcopy", "rebuild", "other-version", "new-version", "revoke", "copy", "pickle", "zone:" + r.choice(ZONES)])
+                how = r.choice(["deepcopy", "rebuild", "other-version", "new-version", "revoke", "copy", "pickle", "zone:" + r.choice(ZONES),
+                                "micro:%d" % r.choice(MICROS)])
                 cases.append(dict(once, derive=how, opts=CORE_OPTS[:4] + [r.choice(ALL_OPTS)]))
             if i == 0:
                 # every class once with its timestamps given as aware datetimes of another zone
                 cases.append(dict(once, derive="zone:" + r.choice(ZONES), opts=CORE_OPTS[:2]))
+            # timestamps given as datetime OBJECTS whose microsecond part lies on both sides of the millisecond (1, 500, 999 |
+            # 1000, 1001) and at the ends (0, 999999): the first objects of every class, every object of a class with a
+            # slot whose shape depends on another property (kind "marking": one object does not show all shapes)
+            poly = any(sl["kind"]["k"] == "marking" for sl in gen.classes[cid]["slots"])
+            if i < 3 or poly:
+                cases.append(dict(once, derive="micro:%d" % MICROS[(i + r.randrange(2) * 3) % len(MICROS)], opts=CORE_OPTS[:2]))
+                if poly:
+                    cases.append(dict(once, derive="micro:%d" % r.choice(MICROS), opts=CORE_OPTS[:2]))
     return cases
 
 
@@ -411,6 +420,9 @@ def nested_custom_cases(gen, cid, o, opts):
         out.append({"route": "construct", "cid": cid, "data": x, "allow": True, "opts": opts, "site": "pre-built: " + site,
                     "prebuilt": [{"path": list(path), "cid": ex["cid"]}]})
     return out
+
+
+MICROS = [500, 1, 999, 1000, 1001, 999999, 0]
 
 
 # zones for timestamps given as aware datetimes: fixed offsets and named zones (with daylight saving)
@@ -526,41 +538,44 @@ def custom_type_cases(gen):
                                 ("custom/2.0/x-c01-observable", "2.0", "obs", None), ("custom/2.1/x-c01-observable", "2.1", "obs", None),
                                 ("custom/2.1/x-c01-new-observable", "2.1", "obs", EXT_OBS)):
         t = cid.split("/")[2]
-        for i in range(4):
-            d = {"type": t}
-            if kind == "obj":
-                d.update({"id": t + "--" + gen.uuid(), "created": t0, "modified": t0})
-                if ver == "2.1":
-                    d["spec_version"] = "2.1"
-                for n, v in (("x_foo", gen.string(True)), ("x_num", 7), ("bar_value", 3), ("zeta", ["b", "a"])):
-                    if n in ("bar_value", "zeta") and "new-thing" not in t or n == "x_num" and "new-thing" in t:
-                        continue
-                    if r.random() < 0.7:
-                        d[n] = v
-                if r.random() < 0.5:
-                    d["labels"] = ["l1"]
-            else:
-                d["value"] = gen.string(True) or "v"
-                if ver == "2.1" and r.random() < 0.5:
-                    d["id"] = t + "--" + gen.uuid(5)
-                if ver == "2.1" and "id" not in d:
-                    d["spec_version"] = "2.1"
-                if r.random() < 0.6:
-                    d["x_more"] = 5
-                if "new-observable" in t and r.random() < 0.6:
-                    d["a_first"] = "a"
-            allow = False
-            if ver == "2.1" and i >= 2:
-                # user-given extensions next to the declared one
-                d["extensions"] = {"extension-definition--" + gen.uuid(): {"extension_type": "property-extension", "rank": 1}}
-                if ext and r.random() < 0.5:
-                    d["extensions"][ext] = {"extension_type": "new-sdo" if kind == "obj" else "new-sco"}
-            if i == 3:
-                d["x_custom_extra"] = 1
-                allow = True
-            route = "construct" if i % 2 == 0 else "parse"
-            data = {k: v for k, v in d.items() if not (route == "construct" and k == "type")}
-            out.append({"route": route, "cid": cid, "data": data, "allow": allow, "opts": CORE_OPTS[:4] + [r.choice(ALL_OPTS)]})
+        # the product: extensions given by the user (none / another one / another one + the declared one) x an UNDECLARED
+        # custom property (no / yes) x how many of the declared optional properties are populated (none / some / all)
+        ext_forms = [0] if ver == "2.0" else [0, 1] if not ext else [0, 1, 2]
+        for extgiven in ext_forms:
+            for undeclared in (False, True):
+                for density in (0.0, 0.6, 1.0):
+                    d = {"type": t}
+                    if kind == "obj":
+                        d.update({"id": t + "--" + gen.uuid(), "created": t0, "modified": t0})
+                        if ver == "2.1":
+                            d["spec_version"] = "2.1"
+                        for n, v in (("x_foo", gen.string(True) or "v"), ("x_num", 7), ("bar_value", 3), ("zeta", ["b", "a"])):
+                            if n in ("bar_value", "zeta") and "new-thing" not in t or n == "x_num" and "new-thing" in t:
+                                continue
+                            if r.random() < density:
+                                d[n] = v
+                        if r.random() < density:
+                            d["labels"] = ["l1"]
+                    else:
+                        d["value"] = gen.string(True) or "v"
+                        if ver == "2.1" and r.random() < 0.5:
+                            d["id"] = t + "--" + gen.uuid(5)
+                        if ver == "2.1" and "id" not in d:
+                            d["spec_version"] = "2.1"
+                        if r.random() < density:
+                            d["x_more"] = 5
+                        if "new-observable" in t and r.random() < density:
+                            d["a_first"] = "a"
+                    if extgiven:
+                        # user-given extensions next to the declared one
+                        d["extensions"] = {"extension-definition--" + gen.uuid(): {"extension_type": "property-extension", "rank": 1}}
+                        if extgiven == 2:
+                            d["extensions"][ext] = {"extension_type": "new-sdo" if kind == "obj" else "new-sco"}
+                    if undeclared:
+                        d[r.choice(["x_custom_extra", "x_other", "a_undeclared", "zz_undeclared"])] = r.choice([1, "v", [1, 2]])
+                    route = r.choice(["construct", "parse"])
+                    data = {k: v for k, v in d.items() if not (route == "construct" and k == "type")}
+                    out.append({"route": route, "cid": cid, "data": data, "allow": undeclared, "opts": CORE_OPTS[:4] + [r.choice(ALL_OPTS)]})
     return out
 
 
